@@ -272,7 +272,14 @@ def run(ctx):
                 ctx.cov["unconfirmed_failures"] = ctx.cov.get("unconfirmed_failures", 0) + 1
     ctx.cov["failing_case_runs_confirmed"] = sum(len(v) for v in groups.values())
     ctx.cov["failing_classes"] = {k: len(v) for k, v in groups.items() if k.count(":") == 1}
-    for sig, lst in sorted(groups.items()):
+    reported = 0
+    for sig, lst in sorted(groups.items(), key=lambda kv: (kv[0].count(":") != 1, kv[0])):
+        if sig.count(":") != 1:     # not one of the two classes: one report per case, at most 25 reports
+            reported += 1
+            if reported > 25:
+                ctx.cov["violations_not_reported"] = ctx.cov.get("violations_not_reported", 0) + 1
+                ctx.violations += 1
+                continue
         ci, cid, arrived, extra, tail = lst[0]
         c = cases[cid]
         what = ("%d case-run(s): required private bytes of the message did not arrive; first: cfg=%s%s case=%s required=%s arrived=%s"
